@@ -391,6 +391,26 @@ def run(ctx):
                     ctx.check("jaccard", False, "jaccard/raised:dict-of-tables:%s" % type(e).__name__, "jaccard with %s raised %s" % (way, type(e).__name__), dict(wit, way=way), (nt, way))
                 if got is not None:
                     ctx.check("jaccard", abs(got - a_ / (N - d_)) < 1e-12, "jaccard/value:several-contigs:dict-of-tables", "jaccard (%s) over contigs %r = %r, per-base model %r" % (way, names, got, a_ / (N - d_)), dict(wit, way=way, got=got, expected=a_ / (N - d_)), (nt, way))
+        # a Geometry call leaves the caller's table as it was (column types and encodings included), so that the table can go to another genome afterwards
+        from bionumpy.genomic_data.geometry import Geometry as _Geo
+        tA = mk(sorted(A, key=lambda x: (names.index(x[0]), x[1], x[2])))
+        col_state = lambda t_: (type(t_.chromosome).__name__, repr(getattr(t_.chromosome, "encoding", None))[:60], [str(x) for x in t_.chromosome.tolist()], np.asarray(t_.start).tolist(), np.asarray(t_.stop).tolist())
+        st0 = col_state(tA)
+        try:
+            _Geo(sizes).merge_intervals(tA, r.choice([0, 2]))
+        except Exception as e:
+            from bnpmon.ctx import originates_in_library
+            if not originates_in_library(e) and type(e).__name__ != "GenomeError":
+                raise
+        st1 = col_state(tA)
+        ctx.check("merge", st0 == st1, "operand-mutated:Geometry.merge_intervals:%s" % ("chromosome-column" if st0[:3] != st1[:3] else "coordinates"), "Geometry.merge_intervals changed its argument: chromosome column %r -> %r" % (st0[:2], st1[:2]), dict(wit, before=str(st0)[:300], after=str(st1)[:300]), (nt, "geo-arg"))
+        if st0 == st1:
+            other_order = {n: sizes[n] for n in reversed(names)}
+            try:
+                m2_ = _Geo(other_order).merge_intervals(mk(sorted(A, key=lambda x: (list(other_order).index(x[0]), x[1], x[2]))), 0)
+                ok2 = True
+            except Exception:
+                ok2 = None      # a refusal for this order is not what is judged here
         # merge_intervals over the table grouped per chromosome
         from bionumpy.streams import groupby as _groupby
         dgap = r.choice([0, 0, 2])
